@@ -35,10 +35,11 @@ func Corpus() []*Hist {
 		// known: the root of the evicted file is pinned twice: the run writes pin count 1 and deletes the root chunk
 		{Kind: "corpus-gc-deletes-pinned-root", Base: baseKey, Cap: 4, Files: []FileSpec{A}, Ops: []Op{
 			{K: "fetchpyr", F: 0}, {K: "fetch", F: 0, Leaves: all(3)}, {K: "upchunk", F: 0, L: -1, Pin: true}, {K: "upchunk", F: 0, L: -1, Pin: true}, {K: "gc"}}},
-		// known: DELETE of a reference chunkinfo never registered (POST /bytes of the same content) removes the chunks of the registered file
+		// fixed (fix-delfile-unregistered-root + fix-delete-shared-root): DELETE of a reference chunkinfo never registered (POST /bytes of
+		// the same content) removed the chunks of the registered file
 		{Kind: "corpus-delete-unregistered", Base: baseKey, Cap: 100, Files: []FileSpec{fa("a.bin", 0, 1), fb("b", 0, 1)}, Ops: []Op{
 			{K: "upload", F: 0}, {K: "upload", F: 1}, {K: "delete", F: 1}}},
-		// known: the deleted file's root chunk is an inner chunk of another registered file: it is removed unconditionally
+		// fixed (fix-delete-shared-root): the deleted file's root chunk is an inner chunk of another registered file: it was removed unconditionally
 		{Kind: "corpus-delete-shared-root", Base: baseKey, Cap: 100, Files: []FileSpec{fa("a.bin", 0, 1), fb("b", 0, 1)}, Ops: []Op{
 			{K: "upload", F: 0}, {K: "upload", F: 1}, {K: "transfer", F: 1}, {K: "delete", F: 1}}},
 		// known: same through eviction: the bare one-chunk file is cached (a bare multi-chunk reference cannot be
@@ -51,6 +52,10 @@ func Corpus() []*Hist {
 		// clean: uploaded files sharing chunks (one with a repeated chunk), delete one, then the other
 		{Kind: "corpus-delete-clean-shared", Base: baseKey, Cap: 100, Files: []FileSpec{fa("a.bin", 0, 0, 1), fa("c.bin", 1, 3)}, Ops: []Op{
 			{K: "upload", F: 0, Pin: true}, {K: "upload", F: 1}, {K: "delete", F: 0}, {K: "delete", F: 1}}},
+		// DELETE of a bare multi-chunk reference of which only the root chunk is stored: the manifest probe of the
+		// traversal needs the whole content -> 500, nothing changes (minimised correspondence disagreement)
+		{Kind: "corpus-delete-bare-root-only", Base: baseKey, Cap: 100, Files: []FileSpec{fb("b", 3, 1)}, Ops: []Op{
+			{K: "upchunk", F: 0, L: -1, Pin: true}, {K: "delete", F: 0}}},
 		// a candidate is accessed between selection and eviction (dirty): it survives this run
 		{Kind: "corpus-gc-dirty", Base: baseKey, Cap: 6, Files: []FileSpec{fa("a.bin", 0, 1), fa("c.bin", 1, 3)}, Ops: []Op{
 			{K: "fetchpyr", F: 0}, {K: "fetch", F: 0, Leaves: all(2)}, {K: "fetchpyr", F: 1}, {K: "fetch", F: 1, Leaves: all(2)},
